@@ -31,6 +31,7 @@ from collections import defaultdict
 from spyne.util import six
 from spyne.util.six.moves.collections_abc import Iterable as AbcIterable
 
+from spyne import BODY_STYLE_WRAPPED
 from spyne.error import ValidationError
 from spyne.error import ResourceNotFoundError
 
@@ -103,6 +104,11 @@ class HierDictDocument(DictDocument):
 
                 else:
                     doc = None
+
+            if doc is None and ctx.descriptor.body_style is BODY_STYLE_WRAPPED:
+                # {"method": null}: no arguments were sent (null would be
+                # read as an empty argument *list* below)
+                doc = {}
 
             result_message = self._doc_to_object(ctx, body_class, doc,
                                                                  self.validator)
